@@ -78,6 +78,9 @@ type LenFlow struct {
 	loops   map[types.Object]*lenLoop // loop variable -> canonical loop
 	subs    map[types.Object]LenSym   // single-definition sub-slices Y = X[lo:hi] with length-only bounds: len(Y)
 	loopCnd map[ast.Expr]bool
+	nassign map[types.Object]int // assignments per variable (any form)
+	boolDef map[types.Object]ast.Expr
+	noSites int
 	inRhs   map[ast.Expr]bool // sites under the right operand of && / || in a non-branch node
 }
 
@@ -485,6 +488,41 @@ func (lf *LenFlow) prepare() {
 	lf.loops = map[types.Object]*lenLoop{}
 	lf.loopCnd = map[ast.Expr]bool{}
 	lf.inRhs = map[ast.Expr]bool{}
+	lf.boolDef = map[types.Object]ast.Expr{}
+	lf.nassign = map[types.Object]int{}
+	ast.Inspect(f.Body, func(x ast.Node) bool {
+		bump := func(e ast.Expr) {
+			if e == nil {
+				return
+			}
+			if id, ok := ast.Unparen(e).(*ast.Ident); ok {
+				if o := ObjOf(info, id); o != nil {
+					lf.nassign[o]++
+				}
+			}
+		}
+		switch y := x.(type) {
+		case *ast.AssignStmt:
+			for _, l := range y.Lhs {
+				bump(l)
+			}
+		case *ast.ValueSpec:
+			for _, nm := range y.Names {
+				if o := info.Defs[nm]; o != nil {
+					lf.nassign[o]++
+				}
+			}
+		case *ast.IncDecStmt:
+			bump(y.X)
+			bump(y.X) // never "assigned once"
+		case *ast.RangeStmt:
+			bump(y.Key)
+			bump(y.Key)
+			bump(y.Value)
+			bump(y.Value)
+		}
+		return true
+	})
 
 	// --- uses of X
 	defs := 0
@@ -1473,7 +1511,7 @@ func (lf *LenFlow) checkSite(st *LenSite, s S) {
 }
 
 func (lf *LenFlow) sitesIn(n ast.Node, s S) {
-	if n == nil {
+	if n == nil || lf.noSites > 0 {
 		return
 	}
 	ast.Inspect(n, func(x ast.Node) bool {
@@ -1653,10 +1691,84 @@ type lenSV struct {
 	v bool
 }
 
+// condDef returns the expression a boolean local stands for when the local is
+// defined exactly once and every variable of that expression keeps its value
+// from the definition to the end of the function (`b := len(x) < 2; if b {`).
+func (lf *LenFlow) condDef(id *ast.Ident) ast.Expr {
+	o := ObjOf(lf.info, id)
+	v, ok := o.(*types.Var)
+	if !ok || v.IsField() || v.Pkg() == nil || v.Parent() == nil || v.Parent() == v.Pkg().Scope() {
+		return nil
+	}
+	if def, ok := lf.boolDef[o]; ok {
+		return def
+	}
+	var def ast.Expr
+	defer func() { lf.boolDef[o] = def }()
+	if b, ok := v.Type().Underlying().(*types.Basic); !ok || b.Kind() != types.Bool {
+		return nil
+	}
+	if lf.nassign[o] != 1 || lf.untrack[o] {
+		return nil
+	}
+	var cand ast.Expr
+	ast.Inspect(lf.F.Body, func(x ast.Node) bool {
+		switch y := x.(type) {
+		case *ast.AssignStmt:
+			if len(y.Lhs) == len(y.Rhs) {
+				for i, l := range y.Lhs {
+					if li, ok := ast.Unparen(l).(*ast.Ident); ok && ObjOf(lf.info, li) == o {
+						cand = y.Rhs[i]
+					}
+				}
+			}
+		case *ast.ValueSpec:
+			for i, nm := range y.Names {
+				if lf.info.Defs[nm] == o && i < len(y.Values) {
+					cand = y.Values[i]
+				}
+			}
+		}
+		return true
+	})
+	if cand == nil {
+		return nil
+	}
+	stable := true
+	ast.Inspect(cand, func(x ast.Node) bool {
+		switch y := x.(type) {
+		case *ast.FuncLit:
+			stable = false
+		case *ast.Ident:
+			if w, ok := ObjOf(lf.info, y).(*types.Var); ok && !w.IsField() {
+				if w.Pkg() == nil || w.Parent() == w.Pkg().Scope() {
+					stable = false // package-level variable
+				} else if lf.nassign[w] > 1 || lf.untrack[w] || lf.varying[w] || w == o {
+					stable = false
+				}
+			}
+		}
+		return stable
+	})
+	if !stable {
+		return nil
+	}
+	def = cand
+	return def
+}
+
 func (lf *LenFlow) evalCond(e ast.Expr, s S) []lenSV {
 	e = ast.Unparen(e)
 	if tv, ok := lf.info.Types[e]; ok && tv.Value != nil && tv.Value.Kind() == constant.Bool {
 		return []lenSV{{s, constant.BoolVal(tv.Value)}}
+	}
+	if id, ok := e.(*ast.Ident); ok {
+		if def := lf.condDef(id); def != nil {
+			lf.noSites++ // the sites of the definition were checked where it is evaluated
+			r := lf.evalCond(def, s)
+			lf.noSites--
+			return r
+		}
 	}
 	switch x := e.(type) {
 	case *ast.UnaryExpr:
